@@ -54,11 +54,17 @@ def _entry_points():
     eps = []
     # "section2": the written section is the NEWER of two sections of one output and an OLDER one is written
     # to afterwards (a redraw re-emits recorded content: gated text must not have been recorded)
+    # "section_hist": the section already shows a line written while it was neither quiet nor gated; the settings
+    # change afterwards (what a later write, overwrite or clear sends - text or cursor codes - is gated the same)
     # "section_of" / "section_after": quiet and verbosity are set on the OUTPUT the section is taken from, before /
     # after the section is created, and never on the section: the gate follows what the section itself reports
-    for cls, kinds in ((IO, ["io"]), (Output, ["output", "error_output"]), (SectionOutput, ["section", "section2", "section_of", "section_after"])):
+    for cls, kinds in ((IO, ["io"]), (Output, ["output", "error_output"]), (SectionOutput, ["section", "section2", "section_of", "section_after", "section_hist"])):
         for name, fn in inspect.getmembers(cls, predicate=inspect.isfunction):
             if name.startswith("_"):
+                continue
+            if name == "clear" and cls is SectionOutput:
+                # not a text-writing method, but it writes (cursor codes) once the section has content
+                eps.append(("section_hist", "clear", False))
                 continue
             if not (name.startswith("write") or name.startswith("error") or name.startswith("overwrite")):
                 continue
@@ -74,6 +80,8 @@ def generate(tier, rng):
             for quiet in (False, True):
                 for v in VERBOSITIES:
                     for f in (FLAGS if has_flags else [None]):
+                        if name == "clear" and not ansi:
+                            continue        # without ANSI support clear() has nothing to send
                         yield {"kind": kind, "method": name, "ansi": ansi, "quiet": quiet,
                                "verbosity": v, "flags": f, "has_flags": has_flags}
 
@@ -111,6 +119,12 @@ def _target(case):
         io.output.set_verbosity(case["verbosity"])
         target = io.output.section()
         fetch = io.fetch_output
+    elif kind == "section_hist":
+        target = io.output.section()
+        target.write_line("before")
+        target.set_quiet(case["quiet"])
+        target.set_verbosity(case["verbosity"])
+        fetch = io.fetch_output
     elif kind == "section_after":
         target = io.output.section()
         io.output.set_quiet(case["quiet"])
@@ -134,17 +148,19 @@ def run_impl(case):
     io, target, older, fetch = _target(case)
     kind = case["kind"]
     fn = getattr(target, case["method"])
-    fetch()
-    if case["has_flags"]:
+    base = len(fetch())        # fetch() does not empty the buffer: what the set-up wrote is not counted
+    if case["method"] == "clear":
+        fn()
+    elif case["has_flags"]:
         fn("payload", flags=case["flags"])
     else:
         fn("payload")
-    out = fetch()
+    out = fetch()[base:]
     rep = _reported(target)
     if kind == "section2":
         # anything that reaches the stream later counts as well
         older.write_line("later")
-        out += fetch()
+        out = fetch()[base:]
         return {"wrote": "payload" in out, "contains_payload": "payload" in out, "reported": rep}
     return {"wrote": bool(out), "contains_payload": "payload" in out, "reported": rep}
 
@@ -180,7 +196,7 @@ def oracle(case, obs):
     if obs["wrote"] != want:
         return "%s.%s(flags=%r) on an object reporting quiet=%s verbosity=%s: wrote=%s, required=%s" % (
             case["kind"], case["method"], case["flags"], quiet, verbosity, obs["wrote"], want)
-    if obs["wrote"] and not obs["contains_payload"]:
+    if obs["wrote"] and not obs["contains_payload"] and case["method"] != "clear":
         return "bytes were written but not the text"
     return None
 
